@@ -176,10 +176,18 @@ class Typer:
         src_t = self.type_of(it[2], env)
         self.bind_target(it[1], self.elem_type(src_t), env)
 
+    def as_tuple(self, t: Type) -> Type:
+        """A NamedTuple value class of the package, seen as the tuple of its fields."""
+        if t[0] == "cls" and t[1] in self.prog.records() and self.prog.records()[t[1]][2]:
+            ci = self.prog.classes[t[1]]
+            return ("tuple", tuple(self.ann(ci.fields[f], ci.module) if f in ci.fields else ANY for f in self.prog.records()[t[1]][0]))
+        return t
+
     def bind_target(self, tgt: Term, t: Type, env: Dict[str, Type]) -> None:
         if tgt[0] == "var":
             env[tgt[1]] = t
         elif tgt[0] == "tuple":
+            t = self.as_tuple(self.unopt(t))
             for i, x in enumerate(tgt[1]):
                 if t[0] == "tuple" and i < len(t[1]):
                     self.bind_target(x, t[1][i], env)
@@ -233,7 +241,7 @@ class Typer:
         if k == "attr":
             return self.attr_type(self._type_of(t[1], env), t[2])
         if k == "idx":
-            bt = self.unopt(self._type_of(t[1], env))
+            bt = self.as_tuple(self.unopt(self._type_of(t[1], env)))
             i = T.strip(t[2])
             if i[0] == "slice":
                 return bt
